@@ -303,13 +303,17 @@ def path_kinds(shape, path=None):
             "rext": ["SEQUENCE", "OPENTYPE"], "str": ["STRING"]}[k]
 
 
-def nest_segs(shape, syn, depth, path=None, definite=False):
+def nest_segs(shape, syn, depth, path=None, definite=False, skipext=False):
     """Input that nests `depth` levels deep in the given recursive shape (a valid encoding of a value)."""
     n, k, p = shape["name"].encode(), shape["kind"], shape["p"]
     if syn == "ber" and definite:
         return nest_ber_definite(shape, depth, path)
     if k == "rseq":
         v = v_enc(p["pre"], syn)
+        if syn == "ber" and skipext and p["ext"]:
+            # an unknown extension addition ([CONTEXT 1916], constructed, indefinite) nested in itself: the decoder
+            # has to skip it (ber_skip_length recurses once per level)
+            return [(b"\x30\x80" + v, 1), (b"\xbf\x8f\x7c\x80", depth), (b"\x00\x00", depth), (b"\x00\x00", 1)]
         if syn == "ber":
             op, cl = (b"\xa1\x80", b"\x00\x00") if p["mode"] == "IMPLICIT" else (b"\xa1\x80\x30\x80", b"\x00\x00\x00\x00")
             return [(b"\x30\x80", 1), (v + op, depth), (v, 1), (cl, depth), (b"\x00\x00", 1)]
@@ -761,8 +765,11 @@ def case_strategy(draw, spec):
             depth = min(depth, 3000)
         if kind == "rext" and syn in ("oer", "uper"):
             depth = min(depth, OPEN_TYPE_MAX_DEPTH if syn == "oer" else 2500)
+        skipext = bool(kind == "rseq" and syn == "ber" and not definite and shape["p"].get("ext") and draw(st.integers(0, 2)) == 0)
         case.update(shape=shape["name"], syn=syn, depth=depth, path=path, definite=definite,
                     pathkinds=path_kinds(shape, path))
+        if skipext:
+            case["skipext"] = True
         return case
     tail = draw(st.binary(max_size=64))
     claim = draw(st.sampled_from(CLAIMS) | st.integers(1 << 20, (1 << 64) - 1))
@@ -818,7 +825,8 @@ def materialise(spec, case):
     fam, syn = case["fam"], case["syn"]
     segs, claimed = None, 0
     if fam == "nest":
-        segs = nest_segs(shape, syn, case["depth"], tuple(case["path"]) if case.get("path") else None, case.get("definite"))
+        segs = nest_segs(shape, syn, case["depth"], tuple(case["path"]) if case.get("path") else None, case.get("definite"),
+                         case.get("skipext", False))
     elif fam == "len":
         r = len_case(shape, syn, case["claim"], case["pad"], bytes.fromhex(case["tail"]), case["variant"])
         if r:
@@ -900,9 +908,10 @@ def worker(spec, wseed, ncases):
 
         def sane(shape, case):
             """depth-3 instance of a nest case must be accepted whole: validates the constructive builders"""
-            key = (shape["name"], case["syn"], tuple(case.get("path") or ()), bool(case.get("definite")))
+            key = (shape["name"], case["syn"], tuple(case.get("path") or ()), bool(case.get("definite")), bool(case.get("skipext")))
             if key not in sanity:
-                segs = nest_segs(shape, case["syn"], 3, tuple(case["path"]) if case.get("path") else None, case.get("definite"))
+                segs = nest_segs(shape, case["syn"], 3, tuple(case["path"]) if case.get("path") else None, case.get("definite"),
+                                 case.get("skipext", False))
                 r = d.cmd("run %s %s d m %s" % (shape["name"], DSYN[case["syn"]], seg_hex(segs)))
                 sanity[key] = r["_status"] == "nocodec" or (r["_status"] == "ok" and r.get("rc") == "0" and int(r["consumed"]) == seg_len(segs))
                 if not sanity[key]:
